@@ -387,7 +387,7 @@ pub fn run(r: &mut Runner) -> &'static str {
               the 107-byte limit, invalid UTF-8; v2 elements, exhaustive: 12 signature positions x 255 values, every control-byte pair with exactly one invalid nibble, every (family, length < required size). oracle: the error-kind table of the \
               statement (v1: InvalidPrefix / InvalidProtocol / Invalid{Source,Destination}{Address,Port} / InvalidSuffix / HeaderTooLong / InvalidUtf8; v2: Prefix, Version(b&F0), Command(b&0F), AddressFamily(b&F0), Protocol(b&0F), \
               InvalidAddresses(L, need) with exact payloads) and is_complete(); through the auto-detecting parser only 'terminal error'. The reference grammar double-checks that the generated fault is the only thing wrong (else the case is discarded). \
-              non-trivial = every (base, element, replacement) triple; distinct by SipHash of the input"
+              non-trivial = every (base, element, replacement) triple; distinct by SipHash of the input Added later: UNKNOWN bases, the longest legal lines as bases for the byte after the CR, multi-byte characters after the CR, the FromStr routes."
         .into();
     r.assumptions.push("payloads of the v1 address / port error kinds are not compared; a non-ASCII byte right after the CR may be reported as InvalidUtf8 by the byte entry point".into());
     let n = r.n(250_000, 6_000_000);
